@@ -202,6 +202,86 @@ func genReader(c *ctx, out string) {
 		l.p("def lengthCountMask : UInt8 := %s", m)
 	}
 
+	// strict long form: both functions call expectSupportedLengthForm(lengthOrSizeOfLength) between taking the count and reading
+	// the length bytes, and that function rejects exactly "bits 0x70 set or count 0"
+	strict := map[string]bool{}
+	for _, fn := range []string{"ReadLength", "PeekLength"} {
+		fd := c.funcDecl(ap, "", fn)
+		seenCount, seenCheck, seenRead := -1, -1, -1
+		idx := 0
+		ast.Inspect(fd.Body, func(n ast.Node) bool {
+			as, ok := n.(*ast.AssignStmt)
+			if !ok || len(as.Rhs) != 1 {
+				return true
+			}
+			idx++
+			switch r := exprStr(as.Rhs[0]); {
+			case r == "int(lengthOrSizeOfLength&0x0F)":
+				seenCount = idx
+			case r == "expectSupportedLengthForm(lengthOrSizeOfLength)":
+				seenCheck = idx
+				// must be followed by `if err != nil { return nil, err }` — checked through the statement list below
+			case strings.HasPrefix(r, "ReadExpectedBigInt(") || strings.HasPrefix(r, "PeekExpectedBigInt("):
+				seenRead = idx
+			}
+			return true
+		})
+		if seenCheck < 0 {
+			strict[fn] = false
+			continue
+		}
+		if !(seenCount >= 0 && seenCount < seenCheck && seenCheck < seenRead) {
+			fail("%s: %s: expectSupportedLengthForm is not called between taking the count and reading the length bytes", c.pos(fd), fn)
+		}
+		// the error of the check must be returned
+		okRet := false
+		ast.Inspect(fd.Body, func(n ast.Node) bool {
+			bs, ok := n.(*ast.BlockStmt)
+			if !ok {
+				return true
+			}
+			for i, st := range bs.List {
+				as, ok := st.(*ast.AssignStmt)
+				if !ok || len(as.Rhs) != 1 || exprStr(as.Rhs[0]) != "expectSupportedLengthForm(lengthOrSizeOfLength)" || len(as.Lhs) != 1 || exprStr(as.Lhs[0]) != "err" {
+					continue
+				}
+				if i+1 < len(bs.List) {
+					if ifs, ok := bs.List[i+1].(*ast.IfStmt); ok && exprStr(ifs.Cond) == "err!=nil" && len(ifs.Body.List) == 1 {
+						if r, ok := ifs.Body.List[0].(*ast.ReturnStmt); ok && len(r.Results) == 2 && exprStr(r.Results[1]) == "err" {
+							okRet = true
+						}
+					}
+				}
+			}
+			return true
+		})
+		if !okRet {
+			fail("%s: %s: the result of expectSupportedLengthForm is not returned", c.pos(fd), fn)
+		}
+		strict[fn] = true
+	}
+	if strict["ReadLength"] != strict["PeekLength"] {
+		fail("ReadLength and PeekLength disagree about expectSupportedLengthForm")
+	}
+	if strict["ReadLength"] {
+		fd := c.funcDecl(ap, "", "expectSupportedLengthForm")
+		if len(fd.Body.List) != 2 {
+			fail("%s: expectSupportedLengthForm: unexpected body", c.pos(fd))
+		}
+		ifs, ok := fd.Body.List[0].(*ast.IfStmt)
+		if !ok || exprStr(ifs.Cond) != "(lengthOrSizeOfLength&0x70)!=0||(lengthOrSizeOfLength&0x0F)==0" || len(ifs.Body.List) != 1 {
+			fail("%s: expectSupportedLengthForm: condition not recognised", c.pos(fd))
+		}
+		if r, ok := ifs.Body.List[0].(*ast.ReturnStmt); !ok || len(r.Results) != 1 || exprStr(r.Results[0]) == "nil" {
+			fail("%s: expectSupportedLengthForm: the rejected forms do not return an error", c.pos(fd))
+		}
+		if r, ok := fd.Body.List[1].(*ast.ReturnStmt); !ok || len(r.Results) != 1 || exprStr(r.Results[0]) != "nil" {
+			fail("%s: expectSupportedLengthForm: unexpected tail", c.pos(fd))
+		}
+	}
+	l.p("/-- asn1parser.go:ReadLength/PeekLength — a long form whose first byte has one of the bits 0x70 set, or whose count of length bytes is 0 (indefinite form), is rejected. -/")
+	l.p("def lengthFormStrict : Bool := %v", strict["ReadLength"])
+
 	// --- version --------------------------------------------------------------------------
 	pv := c.funcDecl(cr, "", "parseVersion")
 	verExpr := ""
@@ -249,6 +329,121 @@ func genReader(c *ctx, out string) {
 		}
 		return true
 	})
+	// --- envelope checks of ReadCRL (top-level statements, in order) -------------------------------------------
+	var top []string
+	for _, st := range rc.Body.List {
+		switch x := st.(type) {
+		case *ast.AssignStmt:
+			if len(x.Rhs) == 1 {
+				top = append(top, "assign:"+exprStr(x.Rhs[0]))
+			}
+		case *ast.IfStmt:
+			ret := ""
+			if len(x.Body.List) >= 1 {
+				if r, ok := x.Body.List[len(x.Body.List)-1].(*ast.ReturnStmt); ok && len(r.Results) == 2 && exprStr(r.Results[0]) == "nil" && exprStr(r.Results[1]) != "nil" {
+					ret = "!"
+				}
+			}
+			top = append(top, "if"+ret+":"+exprStr(x.Cond))
+		}
+	}
+	find := func(s string) int {
+		for i, t := range top {
+			if t == s {
+				return i
+			}
+		}
+		return -1
+	}
+	iOuterTL := find("assign:asn1parser.ReadTagLength(&reader)")
+	iOuterEnd := find("assign:calculateEndPosition(reader,certificateListTL)")
+	iStart := find("assign:signatureverify.LookupHashAndVerifyStrategies(*algorithmIdentifier)")
+	iInnerAlg := find("assign:readAlgorithmIdentifier(&reader)")
+	iCmp := find("if!:!bytes.Equal(tbsAlgorithmIdentifierEncoding,algorithmIdentifierEncoding)")
+	iIssuer := find("assign:asn1parser.ReadStruct(&reader,issuer)")
+	iSig := find("assign:asn1parser.ParseBitString(&reader)")
+	iBits := find("if!:signatureBitString.BitLength%8!=0")
+	iLen := find("if!:reader.Position()!=certificateListEnd")
+	if iOuterTL < 0 || iIssuer < 0 || iSig < 0 || iStart < 0 {
+		fail("%s: ReadCRL: landmark statements not found (outer header, issuer, signature)", c.pos(rc))
+	}
+	outerLen := false
+	if iOuterEnd >= 0 || iLen >= 0 {
+		if !(iOuterTL < iOuterEnd && iOuterEnd < iStart && iSig < iLen) {
+			fail("%s: ReadCRL: the outer length check is not `end := calculateEndPosition(reader, certificateListTL)` before hashing starts and `reader.Position() != end` after the signature", c.pos(rc))
+		}
+		if iOuterEnd+1 >= len(top) || top[iOuterEnd+1] != "if!:err!=nil" {
+			fail("%s: ReadCRL: error of calculateEndPosition(certificateListTL) is not returned", c.pos(rc))
+		}
+		outerLen = true
+	}
+	algCmp := false
+	if iInnerAlg >= 0 && iInnerAlg < iIssuer && iCmp >= 0 {
+		if !(iInnerAlg+1 == iCmp-1 && top[iInnerAlg+1] == "if!:err!=nil" && iCmp < iIssuer) {
+			fail("%s: ReadCRL: the inner algorithm identifier is not read, its error returned and compared before the issuer is read", c.pos(rc))
+		}
+		// the two encodings compared are the complete TLVs read by readAlgorithmIdentifier in the two passes
+		lhsOf := func(fn *ast.FuncDecl, rhs string) string {
+			res := ""
+			ast.Inspect(fn.Body, func(n ast.Node) bool {
+				if as, ok := n.(*ast.AssignStmt); ok && len(as.Rhs) == 1 && exprStr(as.Rhs[0]) == rhs && res == "" {
+					var ls []string
+					for _, e := range as.Lhs {
+						ls = append(ls, exprStr(e))
+					}
+					res = strings.Join(ls, ",")
+				}
+				return true
+			})
+			return res
+		}
+		if lhsOf(rc, "findAlgorithmIdentifierInCRL(crlFile)") != "algorithmIdentifier,algorithmIdentifierEncoding,err" {
+			fail("%s: ReadCRL: the outer algorithm identifier encoding does not come from findAlgorithmIdentifierInCRL", c.pos(rc))
+		}
+		if lhsOf(rc, "readAlgorithmIdentifier(&reader)") != "_,tbsAlgorithmIdentifierEncoding,err" {
+			fail("%s: ReadCRL: the inner algorithm identifier encoding does not come from readAlgorithmIdentifier", c.pos(rc))
+		}
+		fa := c.funcDecl(cr, "", "findAlgorithmIdentifierInCRL")
+		if r, ok := fa.Body.List[len(fa.Body.List)-1].(*ast.ReturnStmt); !ok || len(r.Results) != 1 || exprStr(r.Results[0]) != "readAlgorithmIdentifier(&reader)" {
+			fail("%s: findAlgorithmIdentifierInCRL does not end in `return readAlgorithmIdentifier(&reader)`", c.pos(fa))
+		}
+		ra := c.funcDecl(cr, "", "readAlgorithmIdentifier")
+		var ras []string
+		for _, st := range ra.Body.List {
+			switch x := st.(type) {
+			case *ast.AssignStmt:
+				ras = append(ras, exprStr(x.Lhs[0])+"="+exprStr(x.Rhs[0]))
+			case *ast.ReturnStmt:
+				var rs []string
+				for _, e := range x.Results {
+					rs = append(rs, exprStr(e))
+				}
+				ras = append(ras, "return "+strings.Join(rs, ","))
+			case *ast.IfStmt:
+				ras = append(ras, "if "+exprStr(x.Cond))
+			}
+		}
+		want := "encoding=new(asn1.RawValue);err=asn1parser.ReadStruct(reader,encoding);if err!=nil;value=new(pkix.AlgorithmIdentifier);_=asn1.Unmarshal(encoding.FullBytes,value);if err!=nil;return value,encoding.FullBytes,nil"
+		if strings.Join(ras, ";") != want {
+			fail("%s: readAlgorithmIdentifier: unexpected body %q", c.pos(ra), strings.Join(ras, ";"))
+		}
+		algCmp = true
+	} else if iCmp >= 0 {
+		fail("%s: ReadCRL: algorithm comparison present but not in the recognised place", c.pos(rc))
+	}
+	bits := false
+	if iBits >= 0 {
+		if !(iSig < iBits) || (outerLen && !(iBits < iLen)) {
+			fail("%s: ReadCRL: unused-bits check not between the signature and the outer length check", c.pos(rc))
+		}
+		bits = true
+	}
+	l.p("/-- crlreader.go:ReadCRL — the CertificateList has to end where its (unsigned) length says. -/")
+	l.p("def outerLengthChecked : Bool := %v", outerLen)
+	l.p("/-- crlreader.go:ReadCRL — the signature field of tbsCertList is decoded (errors returned) and has to equal the outer signatureAlgorithm. -/")
+	l.p("def algIdsCompared : Bool := %v", algCmp)
+	l.p("/-- crlreader.go:ReadCRL — a signature BIT STRING with unused bits is rejected. -/")
+	l.p("def sigUnusedBitsRejected : Bool := %v", bits)
 	if maxVer < 0 {
 		fail("%s: ReadCRL: `if version > N` not found", c.pos(rc))
 	}
